@@ -40,6 +40,9 @@ def main():
     ap.add_argument('--budget', type=float, default=None,
                     help='wall-clock cap in seconds (can only shorten a batch)')
     ap.add_argument('--no-evidence', action='store_true')
+    ap.add_argument('--no-sweep', action='store_true')
+    ap.add_argument('--sweep', action='store_true',
+                    help='run the small-scope sweep even with --runs')
     ap.add_argument('--digests', default=None,
                     help='write {seed: digest} JSON here (self-tests)')
     args = ap.parse_args()
